@@ -434,13 +434,14 @@ class Oracle:
 
     def call(self, site, kind, fn, inputs, multi=False, tiny=None):
         """tiny: magnitude of the rotation vector handed to an exponential-coordinate constructor (Exp, EulerVec, trexp):
-        a raise for a magnitude in [10 eps, 100 eps] is the threshold gap between iszerovec (10 eps) and unitvec (100 eps)"""
+        a TypeError for a magnitude <= 100 eps is unitvec's None (returned up to 100 eps) not being handled: the gap above
+        iszerovec's 10 eps in rodrigues / angvec2r, and no zero test at all in UnitQuaternion.EulerVec"""
         try:
             v = fn()
         except Exception as ex:  # a constructor / operator that raises on a valid input returns no member at all
             self.ctx.count('oracle:' + site)
             rep = {'site': site, 'inputs_hex': hexl(inputs), 'inputs': np.asarray(inputs, dtype=float).flatten().tolist()}
-            if tiny is not None and 2e-15 <= tiny <= 2.3e-14 and isinstance(ex, TypeError):
+            if tiny is not None and tiny <= 2.3e-14 and isinstance(ex, TypeError):
                 self.ctx.fail(self.GAP, f"{site} raises TypeError ({str(ex)[:80]}) in {raise_site(ex)} for a rotation vector of magnitude {tiny:.3g}: "
                               "iszerovec treats < 10 eps as zero, unitvec returns None up to 100 eps", rep)
                 return None
